@@ -33,6 +33,10 @@ CLAIMED['C17'] = dict(
    text="Coq theorems (props/C17.v, closed), for EVERY whole-line marker predicate and every file text: the split is lossless (chunks concatenate back to the file), chunks alternate code/marker with an odd count, section k is exactly chunk 2k (or the prefix up to it in cumulative mode), every character of an independent section sits on whole-file line offset + its line in the section (offset = newlines before the chunk; 0 and a prefix in cumulative mode), a request past the end yields the feedback and never fails, and after ANY sequence of separate/next/stop/resolve/set_source/restore the main code is the original whenever no substitution is outstanding. Tie: correspondence of the state machine with the real section machinery after every operation and with re.split; an oracle plants one diagnostic per tool (syntax error, uninitialised read, 1/0, error inside a called function) at a known file line and checks location.line and traceback text.",
    note="Trusted: Coq kernel; hand model of re.split with ONE whole-match capturing group under MULTILINE (validated against re.split on every generated file; patterns that are not whole-line predicates are outside the model); that each tool adds the offset (report_line) is a definitional table in Coq - its tie to syntax_error / TifaCore.locate / ExpandedTraceback / runtime location is the planted-diagnostic oracle only. Model of the repaired code (three fix commits).",
    technique="Coq proof (list/position lemmas, stack invariant by induction over operations) + state-machine correspondence", design="3/C17")
+CLAIMED['C20'] = dict(
+   text="Coq theorems (props/C20.v, closed): for every creation spec (condition truthy/falsy/raising, message explicit/template/raising/none, else-message likewise, justification, delayed, report) the object is recorded exactly once, in the triggered list iff the condition held and nothing raised, bool = outcome, the error path (untriggered, error status, exception propagates), delayed feedback is not recorded; message_spec/message_total; every name of Formatter.available (regenerated each run) dispatches to the formatter of that name, alone or after a width spec (guards the filename/name suffix clash); after ANY history of override()/clear, a clear restores every class's own attributes and hence every inherited lookup (invariant proof). Tie: exhaustive correspondence of creation over the 1280-spec space, recording-formatter runs, and override histories on a real 4-class hierarchy observed after every operation; plus direct oracles.",
+   note="Trusted: Coq kernel; T1 translator for Formatter.available; hand models of _handle_condition, FeedbackFieldWrapper.__format__/chomp_spec and override/_restore_overrides (repaired version) tied by correspondence. report=None is not supported by Feedback.__init__ at all (AttributeError before the condition runs) and is excluded. Hooks run by add_feedback, FeedbackGroup parents and pools are not modelled.",
+   technique="Coq proof (finite case analysis, finite table check, invariant over operation histories) + exhaustive/ random correspondence", design="3/C20")
 REASONS = {}
 DEFAULT_REASON = "check not built yet (work in progress; see DESIGN.md section 6 for the order)"
 
